@@ -224,9 +224,9 @@ impl Runtime {
             return;
         }
         if let Err(error) = self.do_input(string) {
+            // not a broken stack: OUT OF MEMORY when the reply no longer fits on it
             self.clear();
             self.state = State::RuntimeError(error);
-            debug_assert!(false, "BAD INPUT STACK");
         }
     }
 
